@@ -48,8 +48,9 @@ func (self *Interpreter) importItem(node ast.AnalyzedImport) *value.Interrupt {
 				continue
 			}
 
+			// An imported global is the global of its module, not a copy: both sides see each other's assignments.
 			val := self.modules[node.FromModule.Ident()].scopes[0][importItem.Ident.Ident()]
-			self.addVar(importItem.Ident.Ident(), *val)
+			self.currentModule.scopes[0][importItem.Ident.Ident()] = val
 		}
 
 		return nil
